@@ -3,44 +3,59 @@
 (* C15: the bot plugin as a state machine over layer R, and the validation *)
 (* of calls recorded through its stable interface (the real cdylib).       *)
 (*                                                                         *)
-(* State: the plugin's position and the list of position identities        *)
-(* (placement, side to move, castling rights, en-passant file - no clocks) *)
-(* produced by accepted moves since the board was last set.                *)
-(*   SetBoard(p)  installs p and forgets the history                       *)
-(*   MakeMove(m)  applied iff m is legal in the current position; the      *)
-(*                threefold flag is raised exactly when the new position   *)
-(*                now has three occurrences in the history                 *)
-(*   Evaluate     proposes a legal move (or none when there is none) and   *)
-(*                leaves the position unchanged                            *)
+(* State, per plugin instance (the tournament loop of chess-cli drives two *)
+(* instances, one per player, and keeps them in step by submitting every   *)
+(* move to both): the instance's position and the list of position         *)
+(* identities (placement, side to move, castling rights, en-passant file - *)
+(* no clocks) produced by accepted moves since the board was last set.     *)
+(*   SetBoard(i,p)  installs p and forgets the history                     *)
+(*   MakeMove(i,m)  applied iff m is legal in the current position; the    *)
+(*                  threefold flag is raised exactly when the new position *)
+(*                  now has three occurrences in the history               *)
+(*   Evaluate(i)    proposes a legal move (or none when there is none) and *)
+(*                  leaves the position unchanged                          *)
+(*   Result         the tournament loop's verdict on a finished game: it   *)
+(*                  must be the verdict of the rules on the position both  *)
+(*                  instances hold                                         *)
+(* Events without an "id" field belong to instance 0.                      *)
 (***************************************************************************)
 EXTENDS Wire, TLCExt
 
 Rec == ndJsonDeserialize(IOEnv.VERIF_TRACE)
-VARIABLES l, pos, legal, hist, bad
-vars == <<l, pos, legal, hist, bad>>
+Ids == {0, 1}
+VARIABLES l, pos, legal, hist, lastflag, bad
+vars == <<l, pos, legal, hist, lastflag, bad>>
 
 Ident(p) == [b |-> p.b, turn |-> p.turn, cr |-> p.cr, ep |-> p.ep]
 Occurrences(h, id) == Cardinality({ i \in 1..Len(h) : h[i] = id })
-Fail(name, ok) == IF ok THEN {} ELSE {name}
-Report(B) == \A c \in B : PrintT(<<"BAD", ToJson([line |-> l, prop |-> "C15", check |-> c])>>)
+FailP(prop, name, ok) == IF ok THEN {} ELSE {<<prop, name>>}
+Fail(name, ok) == FailP("C15", name, ok)
+Report(B) == \A c \in B : PrintT(<<"BAD", ToJson([line |-> l, prop |-> c[1], check |-> c[2]])>>)
 Ev(name) == l <= Len(Rec) /\ Rec[l].ev = name
-Step(B, p, L, h) == /\ Report(B) /\ bad' = B /\ pos' = p /\ legal' = L /\ hist' = h /\ l' = l + 1
+IdOf(e) == IF "id" \in DOMAIN e THEN e.id ELSE 0
+Step(B, i, p, L, h, f) == /\ Report(B) /\ bad' = B /\ l' = l + 1
+                          /\ pos' = [pos EXCEPT ![i] = p] /\ legal' = [legal EXCEPT ![i] = L]
+                          /\ hist' = [hist EXCEPT ![i] = h] /\ lastflag' = [lastflag EXCEPT ![i] = f]
 
 Fresh == /\ Ev("fresh")
-         /\ Step(Fail("fresh-engine-holds-the-standard-position", PosOfJson(Rec[l].board) = StdPos), StdPos, Legal(StdPos), <<>>)
+         \* (the property speaks of positions "since the board was last set"; what a fresh instance holds is
+         \*  the implementation's choice, so a difference is drift and the trace is followed from what it reports)
+         /\ Step(FailP("DRIFT", "fresh-engine-holds-the-standard-position", PosOfJson(Rec[l].board) = StdPos),
+                 IdOf(Rec[l]), PosOfJson(Rec[l].board), Legal(PosOfJson(Rec[l].board)), <<>>, FALSE)
 
 \* the given board is installed (clocks included) and the history is forgotten
 SetBoard == /\ Ev("set_board")
             /\ LET p == PosOfJson(Rec[l].arg) IN
-               Step(Fail("set_board-installs-the-given-board", PosOfJson(Rec[l].board) = p), p, Legal(p), <<>>)
+               Step(Fail("set_board-installs-the-given-board", PosOfJson(Rec[l].board) = p), IdOf(Rec[l]), p, Legal(p), <<>>, FALSE)
 
 MakeMove ==
     /\ Ev("make_move")
     /\ LET e == Rec[l]
+           i == IdOf(e)
            m == Decode(e.mv)
-           isLegal == m \in legal
-           p == IF isLegal THEN Apply(pos, m) ELSE pos
-           h == IF isLegal THEN Append(hist, Ident(p)) ELSE hist
+           isLegal == m \in legal[i]
+           p == IF isLegal THEN Apply(pos[i], m) ELSE pos[i]
+           h == IF isLegal THEN Append(hist[i], Ident(p)) ELSE hist[i]
            flag == isLegal /\ Occurrences(h, Ident(p)) = 3
            B == Fail("applied-iff-legal", e.valid = isLegal)
                 \cup Fail("reported-board-is-the-reference-successor", PosOfJson(e.board) = p)
@@ -48,20 +63,43 @@ MakeMove ==
            \* after a reported divergence follow the plugin, so that the rest is judged on its own
            po == PosOfJson(e.board)
            resync == po # p /\ OneKingEach(po.b)
-       IN Step(B, IF resync THEN po ELSE p,
-               IF resync THEN Legal(po) ELSE IF isLegal THEN Legal(p) ELSE legal,
-               IF resync THEN Append(hist, Ident(po)) ELSE h)
+       IN Step(B, i, IF resync THEN po ELSE p,
+               IF resync THEN Legal(po) ELSE IF isLegal THEN Legal(p) ELSE legal[i],
+               IF resync THEN Append(hist[i], Ident(po)) ELSE h, flag)
 
 Evaluate ==
     /\ Ev("evaluate")
     /\ LET e == Rec[l]
-           B == Fail("proposed-move-is-legal", e.mv = -1 \/ Decode(e.mv) \in legal)
-                \cup Fail("move-proposed-although-none-is-legal", legal = {} => e.mv = -1)
-                \cup Fail("evaluate-changed-the-board", PosOfJson(e.board) = pos)
-       IN Step(B, pos, legal, hist)
+           i == IdOf(e)
+           B == Fail("proposed-move-is-legal", e.mv = -1 \/ Decode(e.mv) \in legal[i])
+                \cup Fail("move-proposed-although-none-is-legal", legal[i] = {} => e.mv = -1)
+                \cup Fail("evaluate-changed-the-board", PosOfJson(e.board) = pos[i])
+       IN Step(B, i, pos[i], legal[i], hist[i], lastflag[i])
 
-Init == l = 1 /\ pos = StdPos /\ legal = {} /\ hist = <<>> /\ bad = {}
-Next == Fresh \/ SetBoard \/ MakeMove \/ Evaluate
+\* The verdict of the game loop (chess-cli bot_fight, transcribed in the harness): after a move has
+\* been submitted to both instances the game is over by repetition when the flag was raised, else by
+\* what Board::state() says.  Both instances must hold the same position with the same history, and
+\* the verdict must be the one the rules give: "checkmate" exactly when the side to move is mated
+\* (the mover wins), "draw" when there is no legal move without check or the clock has run out,
+\* "threefold" exactly when the last position has occurred three times, and a game that goes on
+\* is in none of these situations.
+Result ==
+    /\ Ev("result")
+    /\ LET e == Rec[l]
+           p == pos[0]
+           cls == ClassifyWith(legal[0], InCheck(p), p.hm)
+           three == lastflag[0]
+           gaveup == e.kind = "didnt_move"
+           want == IF three THEN "threefold" ELSE IF cls = "checkmate" THEN "checkmate" ELSE IF cls = "draw" THEN "draw" ELSE "running"
+           B == Fail("instances-hold-the-same-position", pos[0] = pos[1] /\ hist[0] = hist[1])
+                \cup FailP("C03", "game-verdict-is-the-verdict-of-the-rules", gaveup \/ e.kind = want)
+                \cup Fail("game-abandoned-although-a-move-was-proposed", gaveup => (l > 1 /\ Rec[l-1].ev = "evaluate" /\ Rec[l-1].mv = -1))
+                \cup FailP("C03", "winner-is-the-side-that-moved-last", e.kind = "checkmate" => e.winner = (IF p.turn = "w" THEN "b" ELSE "w"))
+       IN Step(B, 0, pos[0], legal[0], hist[0], lastflag[0])
+
+Init == /\ l = 1 /\ pos = [i \in Ids |-> StdPos] /\ legal = [i \in Ids |-> {}] /\ hist = [i \in Ids |-> <<>>]
+        /\ lastflag = [i \in Ids |-> FALSE] /\ bad = {}
+Next == Fresh \/ SetBoard \/ MakeMove \/ Evaluate \/ Result
 Spec == Init /\ [][Next]_vars
 C15 == bad = {}
 Accepted == /\ PrintT(<<"DONE", ToJson([lines |-> Len(Rec), consumed |-> TLCGet("stats").diameter - 1])>>)
